@@ -1085,6 +1085,11 @@ func genServe(r *Rng, idx int, tier string, step func(op string) string) {
 				// the reader closes the connection on longer requests before the loop sees them
 				ln = uint32(r.Pick(0, 1, 16384))
 			}
+			if rcb <= 16 && ln > uint32(64*rcb) && uint64(b)+uint64(ln) <= uint64(pl) {
+				// with a tiny read-cache block one request costs a cache entry (and a TTL timer) per block:
+				// keep valid requests short so that an observation never has to wait seconds for the frame
+				ln = uint32(r.Range(1, 64*rcb))
+			}
 			op := fmt.Sprintf("msg p=%d t=request i=%d b=%d l=%d", p.k, i, b, ln)
 			do(op)
 			if r.Chance(15) {
